@@ -44,6 +44,8 @@ SCALARS = [
     P('arith_bytes', 'bv + bv', INT, shrink=True), P('arith_byte_lit', 'bv - 1', INT, shrink=True),
     P('arith_int', 'iv + 1', INT), P('arith_int_byte', 'iv * bv', INT), P('unary_byte', '-bv', INT, shrink=True),
     P('unary_int', '-iv', INT), P('const_int', 'ci', INT), P('global_int', 'giv', INT),
+    P('arith_const_int', 'ci + 1', INT), P('arith_const_ints', 'ci * 2 - ci', INT), P('neg_const_int', '-ci', INT),
+    P('arith_cast_const', '(cb is int) + 1', INT),
     P('byte_as_int', 'bv is int', INT), P('bool_as_int', 'fv is int', INT), P('len', 'ia.length', INT),
     P('elem_int', 'ia[1]', INT), P('call_int', 'mk_int()', INT),
     P('byte_var', 'bv', BYTE), P('char_lit', "'a'", BYTE), P('const_byte', 'cb', BYTE), P('int_as_byte', 'iv is byte', BYTE),
@@ -262,6 +264,20 @@ MUTATIONS = [
     ('shadow_parameter', '', 'empty sp(int p) { int p = 1; }\n'),
     ('duplicate_parameter', '', 'empty dp(int p, bool p) { }\n'),
     ('redeclare_global', None, 'int giv = 9;\n'),
+    ('redeclare_local_that_shadows_global', '\n    int giv = 1; int giv = 2;', ''),
+    ('shadow_local_that_shadows_global', '\n    int giv = 1; { int giv = 2; }', ''),
+    ('shadow_local_that_shadows_global_in_loop', '\n    int giv = 1; for (int giv = 0; giv < 2; giv += 1) { }', ''),
+    ('array_redeclares_local_that_shadows_global', '\n    int giv = 1; int giv[4];', ''),
+    ('local_redeclares_parameter_named_like_global', '', 'empty spg(int giv) { int giv = 1; }\n'),
+    ('nested_local_redeclares_parameter_named_like_global', '', 'empty spg(int giv) { if (giv > 0) { bool giv = true; } }\n'),
+    ('duplicate_parameter_named_like_global', '', 'empty dpg(int giv, bool giv) { }\n'),
+    ('narrow_folded_const_arith', '\n    byte nb = ci + 1;', ''),
+    ('narrow_folded_const_arith_assign', '\n    bv = ci * 2;', ''),
+    ('narrow_folded_const_arith_opassign', '\n    bv += ci;', ''),
+    ('narrow_folded_const_arith_arg', '\n    takeb(ci - 1);', 'empty takeb(byte b) { }\n'),
+    ('narrow_folded_const_arith_elem', '\n    ba[0] = ci + ci;', ''),
+    ('narrow_folded_const_arith_literal', '\n    byte[] nb = [ci + 1, 2];', ''),
+    ('narrow_folded_const_global', None, 'const int gk = 7;\nbyte gnb = gk + 1;\n'),
     ('duplicate_signature', None, 'int mk_int() { return 2; }\n'),
     ('duplicate_signature_other_return', None, 'bool mk_int() { return true; }\n'),
     ('redefine_builtin', None, 'empty write(int x) { }\n'),
